@@ -130,6 +130,19 @@ def rule_override(ctx, F, rule="R4"):
                % (fld, " and override_start_value" if fld == fl["ov"] else "", bad), what="unexpected-writer")
 
 
+def _fieldwise_clone(ctx, F, body, ty):
+    """a hand-written clone: one straight path returning the same type with every field the clone of that field of self"""
+    ps = pse.Engine(F, inline=lambda fn, b: False).run(body)
+    ctx.count_paths(ps, body)
+    if len(ps) != 1 or ps[0].outcome != "return" or ps[0].ret[0] != "agg":
+        return False
+    adt = F.adt(ty)
+    got = dict(ps[0].ret[4])
+    want = [f["name"] for f in adt["variants"][0]["fields"]]
+    me = ("deref", ("param", 1))
+    return sorted(got) == sorted(want) and all(got[f] == ("field", me, f) for f in want)
+
+
 def check(ctx):
     F = ctx.facts
     shapes = D.collect(ctx)
@@ -162,8 +175,10 @@ def check(ctx):
     for ty in ("mina_core::timeline_helpers::SubTimeline", "mina_core::timeline_helpers::SplitKeyframe",
                "mina_core::time_scale::TimeScale"):
         cl = F.find(crate="mina_core", name="clone", impl_trait="core::clone::Clone", impl_self_adt=ty)
-        ctx.ob("R3", "Clone/" + ty.split("::")[-1], len(cl) == 1 and bool(cl[0].get("impl_exp")),
-               "Clone for %s must be the derived field-wise clone" % ty, cl[0]["span"] if cl else None, what="clone-not-derived")
+        ok = len(cl) == 1 and (bool(cl[0].get("impl_exp")) or _fieldwise_clone(ctx, F, cl[0], ty))
+        ctx.ob("R3", "Clone/" + ty.split("::")[-1], ok,
+               "Clone for %s must be the field-wise clone (derived, or written by hand with every field cloned from the "
+               "same field)" % ty, cl[0]["span"] if cl else None, what="clone-not-fieldwise")
     c12.check_wrapping(ctx, F, "R3")
     rule_override(ctx, F, "R4")
     c12.check_loop_method(ctx, F, "R4", "start_with", mutable=True)
